@@ -1,6 +1,11 @@
 // Package fixt2 is "another package".
 package fixt2
 
+import (
+	subfixt "verif/harness/internal/fixt/sub/fixt"
+	sub2fixt "verif/harness/internal/fixt/sub2/fixt"
+)
+
 // B is declared in another package.
 type B struct {
 	Y float64
@@ -8,3 +13,9 @@ type B struct {
 
 // BS is a named string in another package.
 type BS string
+
+// Two refers to two packages that are both called fixt; a value usually sets only one of the fields.
+type Two struct {
+	C *subfixt.C
+	D *sub2fixt.D
+}
